@@ -151,6 +151,28 @@ func check(c Case, o *stats.Obs) error {
 			}
 		}
 	}
+	// (0) another handler with a different log level comes into being (a second connection configured for
+	// verbose logs, say); the handler that existed before must go on decoding and displaying as it did.
+	{
+		first := handler.New(drive.StartTime, lv)
+		for _, other := range []slog.Level{slog.LevelDebug, slog.LevelInfo, slog.LevelWarn} {
+			if other == lv {
+				continue
+			}
+			second := handler.New(drive.StartTime, other)
+			for i, f := range c.Pool {
+				second.GetMessage(append([]byte{}, f...))
+				m, _ := first.GetMessage(append([]byte{}, f...))
+				if m == nil {
+					continue
+				}
+				if d := sameView(viewOf(m), base[i]); d != "" {
+					o.Key = "depends-on-another-handlers-level"
+					return fmt.Errorf("frame %x decoded by a handler (level %v) after another handler with level %v was created and used differs from the same frame decoded alone: %s", []byte(f), lv, other, d)
+				}
+			}
+		}
+	}
 	// (1) one handler, the whole history, frame by frame
 	h := handler.New(drive.StartTime, lv)
 	type kept struct {
